@@ -924,6 +924,20 @@ def r5_move_lists(ctx):
                 continue
             k = t["callee"].get("key") or ""
             if k.rsplit("::", 1)[-1] in SHRINK and ("Vec" in k or "vec" in k):
+                # only the list the generator fills counts (a pool of spare buffers that is popped from is another Vec)
+                def root_(tr):
+                    while isinstance(tr, tuple) and tr and tr[0] in ("&", "*", "f", "dc", "cast"):
+                        tr = tr[2] if tr[0] == "cast" else tr[1]
+                    return tr
+                lists_ = {root_(ex.operand(f["blocks"][g_]["term"]["args"][-1])) for g_ in gens if f["blocks"][g_]["term"]["args"]}
+                recv_tree = ex.operand(t["args"][0]) if t["args"] else None
+                if lists_ and recv_tree is not None and root_(recv_tree) not in lists_ and root_(recv_tree)[0] in ("param", "local"):
+                    same_ty = False
+                    if root_(recv_tree)[0] in ("param", "local"):
+                        ty_ = f["locals"][root_(recv_tree)[1]]["ty"]
+                        same_ty = "Vec<inkayaku_board::Move>" in ty_ and "Vec<std::vec::Vec" not in ty_ and "Vec<Vec" not in ty_
+                    if not same_ty or (recv_tree[0] != "local" and any(isinstance(x, tuple) and x and x[0] == "f" for x in [recv_tree[1] if recv_tree[0] in ("&", "*") else recv_tree])):
+                        continue
                 # at the root the list is filtered by searchmoves (filter_search_moves, possibly spliced in): a shrink
                 # that only happens under a test of the distance from the root is that filter
                 at_root = False
